@@ -169,7 +169,7 @@ func genRF(rng *core.Rng, i int) RFCase {
 }
 
 func (ReadFileEngine) Gen(prop, tier string, seed uint64, yield func(c any) bool) {
-	n := 12000
+	n := 40000
 	if tier == "thorough" {
 		n = 3000000
 	}
